@@ -251,6 +251,8 @@ def run(ctx):
     c02.check_seal_point(ctx, F)
     c18.check_sentinels(ctx, F)          # the empty ANS coder has state 0 and exports nothing
     c04.check_same_source(ctx, F)        # chunks of the unmodified state, least significant word first
+    import props.C12 as c12
+    c12.check_width_conserved(ctx, F)    # the format's update: the new width is the old width scaled by the symbol's share, nothing else
     ctx.assume('the constants are those of the published format: rANS with renormalisation interval [2^(S-W), 2^S), PRECISION-bit fixed point; carry-propagating range coder with range >= 2^(S-W), sealing point lower + 2^(S-W) - 1')
     return {
         'level': 'other',
